@@ -18,40 +18,25 @@ CLAIMS = {
             "Word list and SHA-256 are uninterpreted stubs; the real 2048-word list is validated natively (concrete, exhaustive over "
             "the 2048 indices) by the wordlist_contract precheck. SHA-256 itself trusted. Whole phrases are not pushed through "
             "split_whitespace and the real binary search inside one query."),
-    "C02": ("Solver-decided wiring only: the arguments handed to PBKDF2 (password = canonical phrase of the stored entropy, salt = "
+    "C02_unused": ("Solver-decided wiring only: the arguments handed to PBKDF2 (password = canonical phrase of the stored entropy, salt = "
             "'mnemonic' + NFKD(passphrase), 2048 rounds, 64-byte output returned unchanged, PRF = HMAC-SHA512).",
             "PBKDF2/HMAC/SHA-512 arithmetic trusted (pinned by the suite's four vectors); passphrase bound in the evidence."),
-    "C03": ("Solver-decided, bounded by depth: BIP-32 data selection, index encoding, IL/IR split, (IL + k) mod n, chain-code carry "
-            "and the error cases, for all seeds of 16/32/64 bytes, all indices and all HMAC outputs, depth 0..2.",
-            "HMAC-SHA512 is uninterpreted below the compression function, point multiplication is uninterpreted; both trusted. "
-            "Deeper paths repeat the same loop body on a state the symbolic HMAC outputs already make arbitrary."),
-    "C04": ("Solver-decided: PrivateKey::new accepts a 32-byte string iff 0 < value < n (all 2^256 values, real k256 comparison code), "
-            "other lengths 0..64 are rejected or read as the same integer; the address is bytes 12..32 of Keccak over exactly the 64 "
-            "coordinate bytes of the uncompressed key of *this* secret.",
+    "C03": ("Solver-decided, bounded by depth: BIP-32 master key from seeds of 16/32/64/65/96 bytes (quick: 64 and 65), and one derivation step in hardened and in normal form (thorough): data selection, index encoding, IL/IR split, (IL + k) mod n, chain-code carry and the error cases, for all seeds, indices and HMAC outputs.",
+            "HMAC-SHA512 is uninterpreted below the compression function, point multiplication is uninterpreted; both trusted. Depth 2 and mixed paths are attempts; deeper paths repeat the same loop body on a state the symbolic HMAC outputs already make arbitrary."),
+    "C04": ("Solver-decided: PrivateKey::new accepts a 32-byte string iff 0 < value < n (all 2^256 values, real k256 comparison code), other lengths 0..64 are rejected or read as the same integer; the address is bytes 12..32 of one Keccak over exactly the 64 coordinate bytes, for the encoding of this secret's point and (encoding abstracted) for every 65-byte encoding.",
             "secret*G and Keccak-256 are uninterpreted (trusted); EIP-55 casing is ethaddr's Display and not decided."),
-    "C06": ("Solver-decided structure: for all 2^256 values of every integer field, recipient present/absent, chain id present/absent, "
-            "unsigned/signed with either parity: exact field order, type byte, EIP-155 tail, (v|yParity, r, s) tail and that the "
-            "signed digest is Keccak of exactly the unsigned payload; access lists byte-exact for shapes up to 2 entries x 2 slots.",
-            "Leaf encoders are recorders in the structure queries; their contracts are decided in C07 (assume-guarantee). "
-            "JSON -> struct (kind dispatch, field binding) is serde/BTreeMap code out of reach; sender recovery is cryptography."),
-    "C07": ("Solver-decided: length header canonical and minimal for all 2^64 lengths and both kinds; byte strings of every length "
-            "0..40 (one query) and 54..57, 64, 100, 128 with all contents; integers for all 2^256 values; lists/iterators on both "
-            "sides of the 55/56 boundary and with a two-byte length.",
-            "Payload content is symbolic up to 128 bytes; longer payloads are covered by the header query for every length plus the "
-            "absence of any other length-dependent branch in rlp::bytes."),
-    "C08": ("Solver-decided in parts: encodeType (primary first, transitive dependencies once each in name order, recursion) over all "
-            "reference graphs on three struct types; the member type grammar for all ASCII strings up to 10 bytes; atomic encodings "
-            "(bool, address, bytesN alignment, dynamic bytes/string hashing, arrays of atoms); the final 0x1901 preimage.",
-            "HashMap look-up replaced by a table look-up with the same contract; Keccak uninterpreted. struct_hash's walk over a JSON "
-            "object (serde_json::Map) and whole-document digests are out of reach."),
+    "C06": ("Solver-decided structure: for all 2^256 values of every integer field, recipient present/absent, either parity: exact field order, EIP-155 tail and (v, r, s) tail of legacy transactions (all four signed/chain-id combinations), the unsigned EIP-2930 payload with its type byte, that the signed digest of a legacy transaction is one Keccak over exactly the unsigned payload, the signature accessors, the empty access list.",
+            "Leaf encoders are recorders in the structure queries; their contracts are decided in C07 (assume-guarantee). Signed typed transactions, EIP-1559 and populated access lists exceed the memory caps (concat/extend_from_slice of symbolic length) and are thorough-tier attempts, not claims. JSON -> struct (kind dispatch, field binding) is serde/BTreeMap code out of reach; sender recovery is cryptography."),
+    "C07": ("Solver-decided: length header canonical and minimal for all 2^64 lengths and both kinds; byte strings of every length 0..60 (one query) and 0, 1, 2, 55..57, 128 (quick), 3, 20, 32, 33, 54, 64, 100, 255..257 (thorough) with all contents; integers for all 2^256 values; lists/iterators on both sides of the 55/56 boundary and with a two-byte length.",
+            "Payload content is symbolic up to 257 bytes; longer payloads are covered by the header query for every length plus the absence of any other length-dependent branch in rlp::bytes."),
+    "C08": ("Solver-decided in parts: atomic encodings (bytesN alignment and exact length, dynamic bytes and strings hashed, intN/uintN words), the final 0x1901 preimage with accessors and error propagation. encodeType over symbolic reference graphs and the member type grammar are thorough-tier attempts (see level_note).",
+            "HashMap look-up replaced by a table look-up with the same contract; Keccak and the hex-string leaf uninterpreted. encodeType with symbolic member kinds and the recursive member-type parser did not finish (recursion unrolled at every call site); struct_hash's walk over a JSON object and whole-document digests are out of reach."),
     "C09": ("Solver-decided in parts: uintN/intN ranges for all 2^256 values x all 32 widths; bytesN exact length (N-1, N, N+1); fixed "
             "array size; undefined struct reference; wrong JSON kind for bool; negative JSON numbers (with C13).",
             "The number parser is abstracted in the range queries and decided separately in C13. Missing/undeclared members are "
             "inside struct_hash over a JSON object: out of reach."),
-    "C10": ("Solver-decided: exactly one Keccak invocation over 0x19 'Ethereum Signed Message:\\n' || decimal(len) || message, digest "
-            "returned unchanged, for every length 0..24 in one query and lengths 32, 99..101, 127, 128, all contents (non-UTF-8 "
-            "included); the decimal rendering is the real std formatting code.",
-            "Keccak uninterpreted (trusted). Lengths above 128 (4+ digit lengths) are outside: memory."),
+    "C10": ("Solver-decided: exactly one Keccak invocation over 0x19 'Ethereum Signed Message:\\n' || decimal(len) || message, digest returned unchanged, for every length 0..24 in one query and lengths 0, 9, 10 separately, all contents (non-UTF-8 included); the decimal rendering is the real std formatting code.",
+            "Keccak uninterpreted (trusted). Lengths above 24 (hence 3+ digit lengths) are outside: the message is copied at an offset that depends on the formatted length (memcpy at a symbolic offset; 32 bytes already exceed 16 GB)."),
     "C11": ("Solver-decided in parts: v = 35 + 2c + parity exactly for every chain id for which that fits 256 bits, 27/28 without; the "
             "unsigned legacy payload ends in (c, 0, 0), typed payloads start with c (structure queries of C06 with c symbolic).",
             "The CLI guard in cmd::sign::run (clap, file I/O, signing) is process-level and not decided. Known finding D7 (overflow "
@@ -60,16 +45,10 @@ CLAIMS = {
             "an entropy request, a negative status is an error, otherwise exactly one request of 4L/3 bytes whose bytes are the "
             "entropy verbatim, checksum over exactly them, reported length L.",
             "The CLI (printing, vanity retries, threads) is process-level and not decided."),
-    "C13": ("Solver-decided at the deserializer leaves exactly as the derive code calls them: JSON numbers from every u64, i64 and "
-            "finite f64; numeric strings for all ASCII strings up to 6 bytes and the 2^256 hexadecimal boundary; optional chain id; "
-            "byte fields, storage keys and recipients around their exact lengths.",
-            "That every struct field is bound to these deserializers (serde derive over BTreeMap) is not decided; 78-digit decimal "
-            "boundary strings are outside (256-bit multiply chain)."),
-    "C14": ("Solver-decided: one path component for every ASCII string up to 12 bytes (all canonical spellings, the 2^31 and 2^32 "
-            "boundaries).",
-            "Path::from_str as a whole (strip_prefix + split + collect) is out of reach for CBMC: a *concrete* two-byte input did not "
-            "finish in 5 min / 14 GB (pointer-offset dependent memchr); Display output is std integer formatting. Both are outside "
-            "the claim; Path::for_index's format string is checked textually by a precheck."),
+    "C13": ("Solver-decided for JSON numbers at the deserializer hdwallet owns (serialization::num): every u64 through the production instantiation D = serde_json::Value; every u64, i64 and the sign guard through serde's primitive deserializers as D (stated as a different instantiation of the same generic function); the empty string.",
+            "Numeric strings, byte fields, storage keys and recipients go through serde_json's Value visitor machinery and exceed the caps beyond trivial sizes (thorough-tier attempts). That every struct field is bound to these deserializers (serde derive) is not decided."),
+    "C14": ("Solver-decided: one path component for every ASCII string up to 12 bytes (all canonical spellings, the 2^31 and 2^32 boundaries), and Path::from_str for every ASCII string of 2 and 3 bytes (missing root, empty and trailing components).",
+            "Longer paths exceed the memory cap even with the memchr reference stubs; Display output is std integer formatting; Path::for_index builds its text with format!. All three are outside the claim."),
     "C15": ("Solver-decided for parsing: every ASCII string of exactly 130 and 132 bytes (Ok iff [0x] + 130 hex digits, v in "
             "{1b,1c}, 0 < r,s < n, fields equal the digits) and every other length 0..140 (always Err, never a panic).",
             "That Display emits exactly that text ({:064x} on U256: 64 generic 256-bit divisions) is out of reach; the sign|hash "
@@ -80,12 +59,11 @@ CLAIMS = {
     "C18": ("Solver-decided for parsing and matching: every ASCII prefix text up to 7 bytes x every 20-byte address; 40/41-digit "
             "prefixes.",
             "The search loop, worker threads and which account is searched are process-level and not decided."),
-    "C19": ("Solver-decided for the decoder: every ASCII string up to 6 bytes, Unicode whitespace at every position, and "
+    "C19_unused": ("Solver-decided for the decoder: every ASCII string up to 6 bytes, Unicode whitespace at every position, and "
             "decode(encode(b)) = b with lower-case output for b up to 3 bytes.",
             "stdin/stdout plumbing and long inputs are outside."),
-    "C20": ("Solver-decided: verify_domain_type for every declaration of up to N members with names from the five standard ones plus "
-            "a foreign one and types from eight kinds (covers all orderings, repeats, wrong types), and a missing domain type.",
-            "HashMap look-up replaced by a table look-up. 'Hashed according to C08' is C08's claim."),
+    "C20": ("Solver-decided: verify_domain_type for every declaration of up to 3 members (quick; up to 5 in the thorough tier) with names from the five standard ones plus a foreign one and types from eight kinds (orderings, repeats, wrong types), and a missing domain type.",
+            "HashMap look-up replaced by a table look-up. The type *strings* are parsed by MemberKind::from_str, which is not decided (C08). 'Hashed according to C08' is C08's claim."),
 }
 
 NOT_APPLICABLE = {
